@@ -129,3 +129,21 @@ def api_equals_cli_directory(api_orch, cli_orch, d):
     except (ValueError, OSError):
         return True
     return a == b
+
+
+def filtered(violations, rules):
+    return violations if rules is None or len(rules) == 0 else keep(violations, rules)
+
+
+@contract(API + "Linter.lint", props=["C10"], types=dict(self=LinterT, path=PathT, rules=Opt(SeqOf(Str)), path_obj=PathT,
+                                                          violations=Viols),
+          returns=Viols, raises=["ValueError", "OSError"], modifies=MOD)
+class LinterLint:
+    def ensures_missing_path_is_empty(self, path, rules, result, old):
+        return implies(not fs_exists(path), result == [])
+
+    def ensures_file(self, path, rules, result, old):
+        return implies(fs_exists(path) and fs_is_file(path), result == filtered(one_file(old.self.orchestrator, path), rules))
+
+    def ensures_directory(self, path, rules, result, old):
+        return implies(fs_exists(path) and fs_is_dir(path), result == filtered(directory(old.self.orchestrator, path), rules))
